@@ -22,10 +22,11 @@ import (
 //	stream-herr   a bidi stream whose handler fails after one message
 //	stream-reset  a bidi stream the server resets (its opening envelope is lost)
 //	write-fail    a unary call whose request write fails in the transport
+//	close         ClientConn.Close() was called (the documented effect: the stats handlers are told)
 //	mixed         all of the above, one after the other
 var Preamble string
 
-var PreambleKinds = []string{"unary-ok", "unary-herr", "unary-cancel", "stream-ok", "stream-cancel", "stream-herr", "stream-reset", "write-fail", "mixed"}
+var PreambleKinds = []string{"unary-ok", "unary-herr", "unary-cancel", "stream-ok", "stream-cancel", "stream-herr", "stream-reset", "write-fail", "close", "mixed"}
 
 var preN int
 
@@ -47,6 +48,11 @@ func runPreamble(d *Direct, impl SvcServer, kind string) {
 		tag := "pre" + k
 		if kind == "mixed" {
 			tag = "prem-" + k
+		}
+		if k == "close" {
+			d.CC.Close()
+			vsched.Settle()
+			continue
 		}
 		switch k {
 		case "unary-ok", "unary-herr", "unary-cancel", "write-fail":
